@@ -67,18 +67,26 @@ def buffet(sk, cap, cap2, S):
     d = _dir()
     try:
         A = Tensor(rank_ids=["M", "K"], shape=[2, S])
-        fmt = Format(A, {"M": {"format": "U", "pbits": LINE}, "K": {"format": "C", "cbits": LINE, "pbits": LINE}})
+        btype = sk.get("btype", "payload")
+        if btype == "elem":
+            # an interleaved binding ("elem" = coordinate + payload per element) on a rank declared 'U' with non-zero coordinate bits:
+            # one element still occupies LINE bits, so the policy charges exactly what it charges for the payload binding
+            fmt = Format(A, {"M": {"format": "U", "pbits": LINE}, "K": {"format": "U", "cbits": LINE // 2, "pbits": LINE // 2, "layout": "interleaved"}})
+        elif btype == "coord":
+            fmt = Format(A, {"M": {"format": "U", "pbits": LINE}, "K": {"format": "C", "cbits": LINE, "pbits": 3 * LINE}})
+        else:
+            fmt = Format(A, {"M": {"format": "U", "pbits": LINE}, "K": {"format": "C", "cbits": LINE, "pbits": LINE}})
         res = []
         for c in (cap, cap2):
             traces = {}
             if reads:
                 _write(os.path.join(d, "r.csv"), "M_pos,K_pos,M,K,fiber_pos", reads)
-                traces[("A", "K", "payload", "read")] = os.path.join(d, "r.csv")
+                traces[("A", "K", btype, "read")] = os.path.join(d, "r.csv")
             if writes:
                 _write(os.path.join(d, "w.csv"), "M_pos,K_pos,M,K,fiber_pos", writes)
-                traces[("A", "K", "payload", "write")] = os.path.join(d, "w.csv")
+                traces[("A", "K", btype, "write")] = os.path.join(d, "w.csv")
             before = sorted(os.listdir(d))
-            bits, ov = Traffic.buffetTraffic([{"tensor": "A", "rank": "K", "type": "payload", "evict-on": evict_on}], {"A": fmt}, traces, c, line_sz)
+            bits, ov = Traffic.buffetTraffic([{"tensor": "A", "rank": "K", "type": btype, "evict-on": evict_on}], {"A": fmt}, traces, c, line_sz)
             if sorted(os.listdir(d)) != before:
                 return fail("temporary files left behind: %r" % sorted(os.listdir(d)))
             res.append((bits["A"].get("read", 0), bits["A"].get("write", 0), ov))
@@ -288,6 +296,10 @@ def obligations(tier):
                     continue       # ... and another third with 3-element lines (a line size that is not a power of two)
                 tag = "%s/%s/%s/e%d" % ("-".join("%d%d%d" % (r[0], r[1], r[4]) for r in rows), "".join(map(str, wmask)), evict, epl)
                 obs.append(Ob("buffet/" + tag, "buffet", dict(rows=rows, wmask=wmask, evict=evict, epl=epl), ["cap", "cap2", "S"], ["0 <= cap", "cap <= cap2", "0 <= S"]))
+                if epl == 2 and n % 7 == 0:
+                    for bt in ("elem", "coord"):
+                        obs.append(Ob("buffet/" + tag + "/" + bt, "buffet", dict(rows=rows, wmask=wmask, evict=evict, epl=epl, btype=bt), ["cap", "cap2", "S"],
+                                      ["0 <= cap", "cap <= cap2", "0 <= S"]))
     for mrows, mw, krows, kw in [
         ([[0, 0, 0], [1, 1, 2]], [2, 1], [[0, 0, 0, 10, 0], [1, 0, 1, 10, 1]], [0, 1]),
         ([[0, 0, 1], [1, 1, 3]], [1, 1], [[0, 0, 0, 10, 2], [1, 0, 1, 10, 0]], [1, 2]),
